@@ -10,8 +10,7 @@ EXTENDS Integers, Sequences, FiniteSets, TLC, EfiConv
 Hex4(n) == <<(n \div 4096) % 16, (n \div 256) % 16, (n \div 16) % 16, n % 16>>      \* upper-case digits implied
 BootName(n) == [prefix |-> "Boot", digits |-> Hex4(n), upper |-> TRUE]
 LE16(n) == <<n % 256, n \div 256>>
-RECURSIVE OrderBytes(_)
-OrderBytes(ns) == IF ns = <<>> THEN <<>> ELSE LE16(Head(ns)) \o OrderBytes(Tail(ns))
+OrderBytes(ns) == [i \in 1..(2 * Len(ns)) |-> IF i % 2 = 1 THEN ns[(i + 1) \div 2] % 256 ELSE ns[i \div 2] \div 256]
 DecodeOrder(ns) == [k \in 1..Len(ns) |-> BootName(ns[k])]
 (* composition: every decoded name resolves when the firmware-named variable exists *)
 Resolves(store, name) == \E n \in store : BootName(n) = name
